@@ -290,9 +290,9 @@ type RefOutcome struct {
 	Val    RVal
 	Fail   string // "" or a failure class
 	Trace  []string
-	Unspec bool              // the reference semantics leaves the result open (see tags)
-	Repeat bool              // result of the real code may depend on map iteration order: evaluate repeatedly
-	Tags   map[*Term]string  // edge-case tag of the operation at a term
+	Unspec bool             // the reference semantics leaves the result open (see tags)
+	Repeat bool             // result of the real code may depend on map iteration order: evaluate repeatedly
+	Tags   map[*Term]string // edge-case tag of the operation at a term
 }
 
 type ectx struct {
